@@ -59,3 +59,43 @@ fn u04_opid_new() {
     let o = OpId::new(c, a);
     assert!(o.counter() == c && o.actor() == a);
 }
+
+// ---------------------------------------------------------------- U08 text width (BOUNDED ONLY)
+fn any_str<const N: usize>(buf: &[u8; N]) -> Option<&str> {
+    let n: usize = kani::any();
+    kani::assume(n <= N);
+    std::str::from_utf8(&buf[..n]).ok()
+}
+
+fn check_width_laws<const N: usize>() {
+    let a: [u8; N] = kani::any();
+    if let Some(s) = any_str(&a) {
+        let w8 = TextEncoding::Utf8CodeUnit.width(s);
+        let wc = TextEncoding::UnicodeCodePoint.width(s);
+        let w16 = TextEncoding::Utf16CodeUnit.width(s);
+        kani::cover!(s.len() == N);
+        // C24: each encoding's width is the length of the string in that encoding's units
+        assert!(w8 == s.len());
+        assert!(wc <= w16 && w16 <= w8);
+        assert!(w16 <= 2 * wc);
+        if s.len() > 0 {
+            assert!(wc >= 1);
+        }
+        // a string that is one scalar value: widths by UTF-8 length
+        if wc == 1 {
+            assert!(w16 == if s.len() == 4 { 2 } else { 1 });
+        }
+    }
+}
+
+#[kani::proof]
+#[kani::unwind(6)]
+fn u08_width_laws_q() {
+    check_width_laws::<3>();
+}
+
+#[kani::proof]
+#[kani::unwind(7)]
+fn u08_width_laws_t() {
+    check_width_laws::<4>();
+}
